@@ -1,0 +1,15 @@
+//go:build verif
+
+package ptt
+
+import "github.com/Ptt-official-app/go-pttbbs/ptttype"
+
+// VerifPointHook, when set, is called at the schedule points of SetupNewUser
+// (verification builds only; see verif_off.go for the regular build).
+var VerifPointHook func(name string, user *ptttype.UserecRaw, uid ptttype.UID)
+
+func verifPoint(name string, user *ptttype.UserecRaw, uid ptttype.UID) {
+	if VerifPointHook != nil {
+		VerifPointHook(name, user, uid)
+	}
+}
